@@ -178,6 +178,11 @@ def key_universes(rng, n):
     fixed = [(kt1, ''), (kt1, 'approve'), (kt1, 'burn'), (kt1, 'transfer'), (kt1, 'deck'), (tz1, '')]
     out.append((T.ADDRESS, O.sort_unique(T.ADDRESS, fixed)))
     out.append((T.pair(T.ADDRESS, T.NAT), O.sort_unique(T.pair(T.ADDRESS, T.NAT), [(a, 1) for a in fixed[:4]])))
+    # universes of dozens of keys: collections grow past 9, 10, 11 ... elements, where text order and value order part ways
+    out.append((T.NAT, list(range(0, 36))))
+    out.append((T.STRING, O.sort_unique(T.STRING, [str(i) for i in range(0, 30)] + ['k%d' % i for i in range(8)])))
+    out.append((T.INT, list(range(-18, 18))))
+    out.append((T.pair(T.NAT, T.NAT), [(i // 6, i % 6) for i in range(36)]))
     for i in range(n):
         kt = shapes[i % len(shapes)] if i < 2 * len(shapes) else G.gen_type(rng, 2, 'comparable')
         pool = G.comparable_pool(rng, kt, 6)
@@ -194,14 +199,19 @@ def run(ctx):
     rng = ctx.rng
     L_ = ctx.pick(12, 40)
     ctx.rule = ('operation histories of length <= %d (set add/remove/MEM, map put/delete/GET/MEM/GET_AND_UPDATE, SIZE, ITER, MAP) over '
-                'universes of 3-5 keys of every comparable shape (composite keys first), from literal or empty collections; lock-step '
+                'universes of 3-5 keys of every comparable shape (composite keys first) and four universes of 36-38 keys with histories of 40-120 operations, from literal or empty collections; lock-step '
                 'against the model sorted dictionary after every instruction + strict-sortedness invariant on every set/map in every '
                 'snapshot; unsorted and duplicate literals must be rejected; distinct by program; non-trivial = >= 3 primitives' % L_)
     unis = key_universes(rng, ctx.pick(40, 400))
     n = ctx.pick(2400, 120000) // ctx.nshards
     for i in range(n):
         kt, uni = unis[i % 2] if i % 10 == 0 else unis[rng.randrange(len(unis))]      # the two fixed address universes come round regularly
-        code, ops = history(rng, kt, uni, rng.randint(1, L_))
+        length = rng.randint(1, L_)
+        if i % 15 == 7:                                                                # and so do the four large ones, with long histories
+            kt, uni = unis[2 + (i // 15) % 4]
+            length = rng.randint(40, 120)
+            ctx.count('long_histories_over_large_universes')
+        code, ops = history(rng, kt, uni, length)
         ctx.count('histories')
         out = K.run_case(ctx, PID, 'history', code, None, 'values', False, {'ops': ops})
         if out.mon is not None and out.kind in ('agree', 'violation'):
